@@ -456,6 +456,27 @@ def run(chk: common.Check) -> None:
         pol = [{'kind': 'all', 'command': 'next'}, {'kind': 'all', 'command': 'step'},
                {'kind': 'random', 'seed': i, 'choices': ['next', 'step', 'return']}][i % 3]
         specs.append({'statement': src, 'trace_threads': True, 'policy': pol, 'decoys': True, 'timeout': 60})
+    # two runs of one object: the first is killed / terminated / interrupted at a prompt; in the second every command must still reach its prompt
+    two = []
+    for kind in ('kill', 'terminate', 'interrupt'):
+        two.append({'statement': 'x = 1\ny = 2\nz = 3\nw = 4\n', 'policy': {'kind': 'all', 'command': 'next'}, 'timeout': 40,
+                    'signal': {'kind': kind, 'at_prompt': 2}, 'second_run': True, 'second_timeout': 20})
+    for r in common.real_runs(two, jobs=3, hard_timeout=120):
+        rec = r['rec']
+        sp = r['spec']
+        chk.cov.case(('real-two-runs', sp['signal']['kind']))
+        chk.cov.count('kinds', 'real-child-second-run-after-' + sp['signal']['kind'])
+        msgs = []
+        if rec is None or rec.get('second_finished') is not True:
+            msgs.append(f"after the first run was ended by {sp['signal']['kind']}() at a prompt, the second run of the same object did not finish: "
+                        f"{(rec or {}).get('errors')}")
+        else:
+            ended = {(h['event']['trace_no'], h['event']['prompt_no']): h['event']['command'] for h in rec['second_hooks'] if h['hook'] == 'on_end_prompt'}
+            sent = {(t, p): c for t, p, c in rec['second_commands_sent']}
+            if not ended or ended != sent:
+                msgs.append(f'second run: commands recorded at the prompts {ended}, commands sent {sent}')
+        if msgs:
+            oracle_fail.append(({'real_run': sp}, msgs, {'errors': (rec or {}).get('errors')}))
     for r in common.real_runs(specs, jobs=8, hard_timeout=120):
         rec = r['rec']
         chk.cov.case(('real', repr(r['spec']['policy'])))
